@@ -121,14 +121,65 @@ let rec rewrite_chain (p : Syntax.program) (depth : int) (tries : int) (acc : Re
 
 let fclass_of_name s = Stdlib.List.find_opt (fun f -> fclass_name f = s) Faults.all_fclasses
 
-let random_fault (p : Syntax.program) (want : Faults.fclass option) : (Faults.fclass * Faults.fsite) option =
+(* Fault sites.  For the syntactic classes the extracted `site_candidates` is used directly.  For the phrase classes the
+   candidates of `Faults.site_candidates` are enumerated lazily here from the same extracted pieces (root_phrases /
+   walk_program, lit_candidates, obj_candidates) and filtered with the extracted `eligible_at` on the phrase information
+   of ONE walk of the program (the specification `eligible` walks the program again for every candidate). *)
+type fctx = { walk : Walk.pinfo list; roots : Walk.pinfo list; lits : Syntax.expr list; objs : Syntax.expr list; m : BinNums.coq_N }
+let make_fctx (p : Syntax.program) : fctx =
+  let w = Walk.walk_program p in
+  { walk = w;
+    roots = Stdlib.List.filter (fun i -> match Faults.phrase_root i.Walk.pi_ph with Some _ -> true | None -> false) w;
+    lits = Faults.lit_candidates p; objs = Faults.obj_candidates p; m = Walk.max_nid p }
+let rec args_len = function Syntax.ANil -> 0 | Syntax.ACons (_, _, r) -> 1 + args_len r
+let phrase_candidate (c : fctx) (f : Faults.fclass) : (Faults.fsite * Walk.pinfo) option =
+  match f with
+  | Faults.FWrongLiteral ->
+    (match pick c.roots, pick c.lits with Some i, Some e -> Some (Faults.SRoot (i.Walk.pi_id, e), i) | _ -> None)
+  | Faults.FWrongObject ->
+    (match pick c.roots, pick c.objs with Some i, Some e -> Some (Faults.SRoot (i.Walk.pi_id, e), i) | _ -> None)
+  | Faults.FNoOverload ->
+    let calls = Stdlib.List.filter (fun i -> match Faults.phrase_root i.Walk.pi_ph with Some (Syntax.ECall (_, _)) -> true | _ -> false) c.roots in
+    (match pick calls, pick (c.lits @ c.objs) with
+     | Some i, Some e ->
+       (match Faults.phrase_root i.Walk.pi_ph with
+        | Some (Syntax.ECall (_, a)) -> Some (Faults.SArg (i.Walk.pi_id, nat_of_int (rand (args_len a)), e), i)
+        | _ -> None)
+     | _ -> None)
+  | Faults.FMissingAssoc ->
+    let insts = Stdlib.List.filter (fun i -> match i.Walk.pi_ph with
+        | Walk.PConc (Syntax.CInstE (_, _, _, _, _, _)) | Walk.PConc (Syntax.CInstC (_, _, _, _)) -> true | _ -> false) c.walk in
+    (match pick insts with
+     | Some i ->
+       let (gm, pm) = (match i.Walk.pi_ph with
+           | Walk.PConc (Syntax.CInstE (_, _, _, _, gm, pm)) | Walk.PConc (Syntax.CInstC (_, _, gm, pm)) -> (gm, pm)
+           | _ -> ([], [])) in
+       let cands = Stdlib.List.map (fun x -> Faults.SDrop (i.Walk.pi_id, false, x)) (Faults.amap_formals gm)
+                 @ Stdlib.List.map (fun x -> Faults.SDrop (i.Walk.pi_id, true, x)) (Faults.amap_formals pm) in
+       (match pick cands with Some st -> Some (st, i) | None -> None)
+     | None -> None)
+  | Faults.FSigVar ->
+    let asg = Stdlib.List.filter (fun i -> match i.Walk.pi_ph with
+        | Walk.PStmt (Syntax.SSig (_, _, _)) | Walk.PStmt (Syntax.SVar (_, _, _)) -> true | _ -> false) c.walk in
+    (match pick asg with Some i -> Some (Faults.SFlip i.Walk.pi_id, i) | None -> None)
+  | _ -> None
+let is_phrase_class (f : Faults.fclass) = match f with
+  | Faults.FWrongLiteral | Faults.FWrongObject | Faults.FNoOverload | Faults.FMissingAssoc | Faults.FSigVar -> true
+  | _ -> false
+
+let random_fault (p : Syntax.program) (c : fctx) (want : Faults.fclass option) : (Faults.fclass * Faults.fsite) option =
   let rec go tries =
     if tries = 0 then None else
     let f = match want with Some f -> f | None -> (match pick Faults.all_fclasses with Some f -> f | None -> Faults.FUndeclared) in
-    match pick (Faults.site_candidates f p) with
-    | Some st when Faults.eligible f st p -> Some (f, st)
-    | _ -> go (tries - 1) in
-  go 12
+    if is_phrase_class f then
+      (match phrase_candidate c f with
+       | Some (st, i) when Faults.eligible_at f st c.m i -> Some (f, st)
+       | _ -> go (tries - 1))
+    else
+      (match pick (Faults.site_candidates f p) with
+       | Some st -> Some (f, st)
+       | None -> go (tries - 1)) in
+  go 40
 
 let handle_case pid tag nrew depth nfaults rseed fwant choices =
   rng := rseed * 7919 + 13;
@@ -146,8 +197,9 @@ let handle_case pid tag nrew depth nfaults rseed fwant choices =
       emit_program id (tag * 64 + k) q []
     end
   done;
+  let fc = if nfaults > 0 then Some (make_fctx p) else None in
   for k = 1 to nfaults do
-    match random_fault p fwant with
+    match (match fc with Some c -> random_fault p c fwant | None -> None) with
     | Some (f, st) ->
       let q = Faults.plant st p in
       let id = Printf.sprintf "%s.f%d" pid k in
